@@ -115,25 +115,71 @@ pub fn h_rank_slots(n: usize, forward_only: bool) {
         }
         i += 1;
     }
+    vcover!(true, "reach: rank calculation returned");
     vcover!(n >= 3 && want[n - 1] == 2 && ug.user[0][n - 1] != 0, "a function reached over two chains of different length");
     vcover!(n >= 1 && want[0] >= 1, "insertion order differs from dependency order");
 }
 
-/// Reflexive-transitive closure of the edges of `g` (Warshall over raw edges).
-pub fn closure_of<NW>(g: &Dag<NW, Edge, FnIdInner>) -> [[bool; N]; N] {
-    let mut p = [[false; N]; N];
-    let mut i = 0;
-    while i < N {
-        p[i][i] = true;
-        i += 1;
-    }
+/// The edge list of `g` as a matrix with concrete indices: `m[x][y]` = 0 if
+/// there is no edge x -> y, else 1 + kind (1 Logic, 2 Contains, 3 Data);
+/// `pos[x][y]` = index of that edge in `raw_edges`; `dup` = some ordered pair
+/// occurs twice. Scanning with comparisons keeps symbolic values out of array
+/// indices (array theory over symbolic indices is what exhausts the solver).
+pub struct EdgeMatrix {
+    pub m: [[u8; N]; N],
+    pub pos: [[u8; N]; N],
+    pub dup: bool,
+    pub count: usize,
+}
+
+pub fn edge_matrix<NW>(g: &Dag<NW, Edge, FnIdInner>) -> EdgeMatrix {
+    let mut em = EdgeMatrix { m: [[0; N]; N], pos: [[0; N]; N], dup: false, count: 0 };
     let edges = g.raw_edges();
+    em.count = edges.len();
     let mut e = 0;
     while e < daggy_max_edges() {
         if e < edges.len() {
-            p[edges[e].source().index()][edges[e].target().index()] = true;
+            let (sx, tx) = (edges[e].source().index(), edges[e].target().index());
+            let k = match edges[e].weight {
+                Edge::Logic => 1,
+                Edge::Contains => 2,
+                Edge::Data => 3,
+            };
+            let mut x = 0;
+            while x < N {
+                let mut y = 0;
+                while y < N {
+                    if sx == x && tx == y {
+                        if em.m[x][y] != 0 {
+                            em.dup = true;
+                        }
+                        em.m[x][y] = k;
+                        em.pos[x][y] = e as u8;
+                    }
+                    y += 1;
+                }
+                x += 1;
+            }
         }
         e += 1;
+    }
+    em
+}
+
+/// Reflexive-transitive closure of an edge matrix, optionally leaving one edge out.
+pub fn closure_m(m: &[[u8; N]; N], skip: Option<(usize, usize)>) -> [[bool; N]; N] {
+    let mut p = [[false; N]; N];
+    let mut x = 0;
+    while x < N {
+        p[x][x] = true;
+        let mut y = 0;
+        while y < N {
+            if m[x][y] != 0 && skip != Some((x, y)) {
+                p[x][y] = true;
+            }
+            y += 1;
+        }
+        x += 1;
     }
     warshall(&mut p);
     p
@@ -165,8 +211,44 @@ pub const fn daggy_max_edges() -> usize {
 /// B2: `DataEdgeAugmenter::augment` from an arbitrary user graph and arbitrary
 /// access declarations (C11, C12 and the build-side clauses of C01 / C06).
 pub fn h_augment(n: usize) {
-    let ug = sym_user_graph(n, true);
-    let UserGraph { mut g, user, user_edges, user_edge_count } = ug;
+    h_augment_on(n, None)
+}
+
+/// A user graph of a concrete shape (edge kinds alternate Logic / Contains)
+/// with symbolic access declarations.
+pub fn shape_user_graph(n: usize, shape: &[(u8, u8, u8)]) -> UserGraph {
+    let mut g = Dag::<Fx, Edge, FnIdInner>::new();
+    let mut i = 0;
+    while i < n {
+        let mut acc = [ACC_NONE; K];
+        let mut d = 0;
+        while d < K {
+            acc[d] = nd::below(3);
+            d += 1;
+        }
+        g.add_node(Fx { id: i as u8, acc });
+        i += 1;
+    }
+    let mut user = [[0u8; N]; N];
+    let mut user_edges = [(0u8, 0u8); N * N];
+    let mut e = 0;
+    while e < shape.len() {
+        let (a, b, k) = shape[e];
+        let c = 1 + (k % 2);
+        g.update_edge(ni(a as usize), ni(b as usize), kind_of(c - 1)).expect("shape must be acyclic");
+        user[a as usize][b as usize] = c;
+        user_edges[e] = (a, b);
+        e += 1;
+    }
+    UserGraph { g, user, user_edges, user_edge_count: shape.len() }
+}
+
+pub fn h_augment_on(n: usize, shape: Option<&[(u8, u8, u8)]>) {
+    let ug = match shape {
+        Some(sh) => shape_user_graph(n, sh),
+        None => sym_user_graph(n, true),
+    };
+    let UserGraph { mut g, user, user_edges: _, user_edge_count } = ug;
     let want = longest_chain(&user);
     let mut ranks = Vec::with_capacity(N);
     let mut i = 0;
@@ -194,7 +276,7 @@ pub fn h_augment(n: usize) {
 
     fn_graph::verif_hooks::augment(&mut g, &ranks);
 
-    check_built_edges(&g, n, &user, &user_edges, user_edge_count, &up, &want);
+    check_built_edges(&g, n, &user, user_edge_count, &up, &want);
 }
 
 /// The oracles over the edge list of a built graph.
@@ -202,80 +284,54 @@ pub fn check_built_edges(
     g: &Dag<Fx, Edge, FnIdInner>,
     n: usize,
     user: &[[u8; N]; N],
-    user_edges: &[(u8, u8); N * N],
     user_edge_count: usize,
     up: &[[bool; N]; N],
     want: &[usize; N],
 ) {
     vassert!(g.node_count() == n, "C11: built graph does not contain every function");
+    let mut fx = [Fx { id: 0, acc: [ACC_NONE; K] }; N];
     let mut i = 0;
     while i < N {
         if i < n {
-            vassert!(g[ni(i)].id as usize == i, "C11: function not stored under the id add_fn returned");
+            fx[i] = g[ni(i)];
+            vassert!(fx[i].id as usize == i, "C11: function not stored under the id add_fn returned");
         }
         i += 1;
     }
-    let edges = g.raw_edges();
-    vassert!(edges.len() >= user_edge_count, "C11: an accepted user edge is missing from the built graph");
-    vassert!(edges.len() <= daggy_max_edges(), "C11: built graph has duplicate edges");
-    // user edges first, unchanged, in order
-    let mut e = 0;
-    while e < N * N {
-        if e < user_edge_count && e < edges.len() {
-            let (a, b) = user_edges[e];
-            vassert!(edges[e].source().index() == a as usize && edges[e].target().index() == b as usize, "C11: accepted user edge missing or moved");
-            vassert!(edges[e].weight == kind_of(user[a as usize][b as usize] - 1), "C11: kind of an accepted user edge changed");
-        }
-        e += 1;
-    }
-    let p = closure_of(g);
-    // acyclic
-    let mut a = 0;
-    while a < N {
-        let mut b = 0;
-        while b < N {
-            if a != b {
-                vassert!(!(p[a][b] && p[b][a]), "C11: built graph has a cycle");
-            }
-            b += 1;
-        }
-        a += 1;
-    }
-    // added edges: Data only, between conflicting functions, not redundant
+    let em = edge_matrix(g);
+    vassert!(!em.dup, "C11: built graph has two edges for one ordered pair of functions");
+    let p = closure_m(&em.m, None);
     let mut data_edges = 0;
-    let mut e = 0;
-    while e < daggy_max_edges() {
-        if e >= user_edge_count && e < edges.len() {
-            let (a, b) = (edges[e].source().index(), edges[e].target().index());
-            vassert!(edges[e].weight == Edge::Data, "C11: an edge the user did not add is not of kind Data");
-            vassert!(conflict(&g[ni(a)], &g[ni(b)]), "C06: Data edge between functions without conflicting access");
-            vassert!(user[a][b] == 0, "C12: Data edge duplicates a user edge");
-            // redundancy: a path a ->* b avoiding edge e
-            let mut q = [[false; N]; N];
-            let mut i = 0;
-            while i < N {
-                q[i][i] = true;
-                i += 1;
+    let mut x = 0;
+    while x < N {
+        let mut y = 0;
+        while y < N {
+            if x != y {
+                vassert!(!(p[x][y] && p[y][x]), "C11: built graph has a cycle");
             }
-            let mut f = 0;
-            while f < daggy_max_edges() {
-                if f < edges.len() && f != e {
-                    q[edges[f].source().index()][edges[f].target().index()] = true;
-                }
-                f += 1;
+            if user[x][y] != 0 {
+                // accepted user edge: present, kind unchanged, among the first edges
+                vassert!(em.m[x][y] == user[x][y], "C11: accepted user edge missing or its kind changed");
+                vassert!((em.pos[x][y] as usize) < user_edge_count, "C11: accepted user edge moved behind an added edge");
+            } else if em.m[x][y] != 0 {
+                // an edge the user did not add
+                vassert!(em.m[x][y] == 3, "C11: an edge the user did not add is not of kind Data");
+                vassert!(conflict(&fx[x], &fx[y]), "C06: Data edge between functions without conflicting access");
+                let q = closure_m(&em.m, Some((x, y)));
+                vassert!(!q[x][y], "C12: Data edge repeats an ordering already implied by other edges");
+                data_edges += 1;
             }
-            warshall(&mut q);
-            vassert!(!q[a][b], "C12: Data edge repeats an ordering already implied by other edges");
-            data_edges += 1;
+            y += 1;
         }
-        e += 1;
+        x += 1;
     }
+    vassert!(em.count == user_edge_count + data_edges, "C11: edge count differs from accepted user edges plus Data edges");
     // every conflicting pair ordered, in rank-then-insertion order
     let mut a = 0;
     while a < N {
         let mut b = a + 1;
         while b < N {
-            if b < n && conflict(&g[ni(a)], &g[ni(b)]) {
+            if b < n && conflict(&fx[a], &fx[b]) {
                 vassert!(p[a][b] || p[b][a], "C11: conflicting functions not joined by a path");
                 if !up[a][b] && !up[b][a] {
                     // a < b: equal rank -> a first
@@ -287,10 +343,13 @@ pub fn check_built_edges(
         }
         a += 1;
     }
-    vcover!(data_edges >= 2, "two Data edges added");
-    vcover!(data_edges >= 1 && user_edge_count >= 1, "Data edge added next to a user edge");
+    vcover!(true, "reach: augmentation returned and every oracle was evaluated");
+    vcover!(data_edges >= 1, "a Data edge added");
+    if N >= 3 {
+        vcover!(data_edges >= 2, "two Data edges added");
+        vcover!(data_edges >= 1 && user_edge_count >= 1, "Data edge added next to a user edge");
+    }
 }
-
 
 /// B0: the builder API. `CALLS` symbolic calls `(kind, from, to)` over `n`
 /// functions - self-edges, repeats and reversed pairs included - checked call
@@ -366,6 +425,7 @@ pub fn h_builder(n: usize) {
         }
         c += 1;
     }
+    vcover!(true, "reach: all builder calls returned");
     vcover!(count == 3, "three distinct edges accepted");
     // the builder's graph has exactly the accepted edges, once each, last kind wins
     let g = fn_graph::verif_hooks::builder_graph(&b);
@@ -465,5 +525,49 @@ pub fn h_builder_batch(n: usize) {
         x += 1;
     }
     vassert!(g.edge_count() == want, "C16: batch form left an edge behind after the rejected one");
+    vcover!(true, "reach: batch call returned and the graph was inspected");
     vcover!(r.is_err() && want >= 1, "batch rejected with earlier edges kept");
+}
+
+/// Cost probes (development only).
+pub fn probe_user_graph(n: usize) {
+    let ug = sym_user_graph(n, true);
+    assert!(ug.g.node_count() == n);
+}
+pub fn probe_augment_only(n: usize) {
+    let ug = sym_user_graph(n, true);
+    let UserGraph { mut g, user, user_edges: _, user_edge_count: _ } = ug;
+    let want = longest_chain(&user);
+    let mut ranks = Vec::with_capacity(N);
+    let mut i = 0;
+    while i < N {
+        if i < n {
+            ranks.push(Rank(want[i]));
+        }
+        i += 1;
+    }
+    fn_graph::verif_hooks::augment(&mut g, &ranks);
+    assert!(g.node_count() == n);
+}
+
+pub fn probe_conflict_pred() {
+    use fn_graph::DataAccessDyn;
+    let a = Fx { id: 0, acc: [nd::below(3), nd::below(3)] };
+    let b = Fx { id: 1, acc: [nd::below(3), nd::below(3)] };
+    let (ab, am) = (a.borrows(), a.borrow_muts());
+    let (bb, bm) = (b.borrows(), b.borrow_muts());
+    let c = ab.iter().any(|l| bm.iter().any(|r| l == r))
+        || am.iter().any(|l| bb.iter().any(|r| l == r))
+        || am.iter().any(|l| bm.iter().any(|r| l == r));
+    assert!(c == conflict(&a, &b));
+}
+pub fn probe_typeid_eq() {
+    let x = if nd::boolean() { core::any::TypeId::of::<crate::graphs::D0>() } else { core::any::TypeId::of::<crate::graphs::D1>() };
+    let y = if nd::boolean() { core::any::TypeId::of::<crate::graphs::D0>() } else { core::any::TypeId::of::<crate::graphs::D1>() };
+    assert!((x == y) || true);
+    kani_cover_eq(x == y);
+}
+fn kani_cover_eq(b: bool) {
+    vcover!(b, "equal");
+    vcover!(!b, "unequal");
 }
